@@ -540,8 +540,33 @@ def main(run):
             hist[o] = hist.get(o, 0) + 1
     run.extra["random_operator_histogram"] = hist
 
-    failing = C03_coq.emit_and_check(run, "C03", cases, timeout=1200 if quick else 2700, extra_header=C03_coq.extra_header(True),
-                                    shards=16)
+    # numeric pre-check (exact jets): a case whose two sides already differ numerically is proved in its own
+    # file with a short timeout, so that a broken rule does not make ring/field grind on false goals
+    def oracle(case):
+        if case.inp is None:
+            return ctor_mismatch(case, 2, run.seed)
+        return pyden.find_mismatch(case.out, case.inp, trials=2, seed=run.seed, nv=3, order=4)
+    witness = {}
+    for c in cases:
+        try:
+            w = oracle(c)
+        except Exception:
+            w = None
+        if w:
+            witness[c.name] = w
+    suspects = [c for c in cases if c.name in witness]
+    normal = [c for c in cases if c.name not in witness]
+    run.extra["numeric_precheck_suspects"] = [c.name for c in suspects]
+    failing = C03_coq.emit_and_check(run, "C03", normal, timeout=1200 if quick else 2700,
+                                     extra_header=C03_coq.extra_header(True), shards=16)
+    for f_ in os.listdir(vlib.GEN):
+        if f_.startswith("C03s_t2_"):
+            os.remove(os.path.join(vlib.GEN, f_))
+    if suspects:
+        failing += C03_coq.emit_and_check(run, "C03s", suspects[:48], timeout=240, max_rounds=1,
+                                          extra_header=C03_coq.extra_header(True), shards=min(16, len(suspects[:48])))
+        for c in suspects[48:]:
+            failing.append((c, c.name + "_numeric", "numeric pre-check: values differ (not sent to Coq)"))
     rcases = [ref_case(*t) for t in ref_cases(run.tier)]
     for c in rcases:
         run.count_case((c.name, str(c.inp)))
@@ -564,8 +589,10 @@ def main(run):
         if case.name in seen:
             continue
         seen.add(case.name)
-        w = None
-        if case.inp is None:
+        w = witness.get(case.name)
+        if w:
+            pass
+        elif case.inp is None:
             w = ctor_mismatch(case, 10 if quick else 60, run.seed)
         elif case.tactic == "c03_close":
             w = pyden.find_mismatch(case.out, case.inp, trials=30 if quick else 200, seed=run.seed, nv=3, order=4)
